@@ -344,3 +344,25 @@ Example oversize_header_bytes :
   sock_client (sock_reject_frame 7) = OTooLarge /\
   fst (recv_frames (Server 10) (sock_frame 7 (repeat "x"%byte 10))) = [(7, repeat "x"%byte 10)].
 Proof. vm_compute. repeat split. Qed.
+
+(* T2: the length the socket and UDP servers compare with MaxRequestLength is the length field
+   the Go parseHeader returns; for the parseHeader/makeHeader regenerated from the source on every run
+   (Gen/GoFuncs.v; equal to the hand models by Proofs/GoFuncsProofs.v) that field is exactly the length
+   the sender's makeHeader was given, over the whole 31-bit (resp. 16-bit) range and for every index word
+   - so no bit of the declared length (and no flag in the index) can hide an oversized request. *)
+From HV Require Import Lib.GoLite Gen.GoFuncs Proofs.GoFuncsProofs.
+Theorem C13_source_declared_length_socket : forall length index, 0 <= length < 2147483648 ->
+  exists h i ok, socket_makeHeader length index = GRet h /\ socket_parseHeader h = GRet (length, i, ok).
+Proof.
+  intros length index Hl. destruct (socket_source_roundtrip length index Hl) as (h & Hm & Hp).
+  exists h. eexists. eexists. split; [exact Hm | exact Hp].
+Qed.
+Print Assumptions C13_source_declared_length_socket.
+
+Theorem C13_source_declared_length_udp : forall length index, 0 <= length < 65536 ->
+  exists h i ok, udp_makeHeader length index = GRet h /\ udp_parseHeader h = GRet (length, i, ok).
+Proof.
+  intros length index Hl. destruct (udp_source_roundtrip length index Hl) as (h & Hm & Hp).
+  exists h. eexists. eexists. split; [exact Hm | exact Hp].
+Qed.
+Print Assumptions C13_source_declared_length_udp.
